@@ -252,6 +252,7 @@ func runC05(c *Ctx) {
 	c.withRule("R15", func() { checkSetstatApplication(c, false) })
 	// R16 (shared with C17.R1): Client.Chmod sends what os.Chmod would set — permission and special bits
 	c.withOnlyKeys("R1", "R16", []string{"toChmodPerm"}, func() { runC17(c) })
+	checkPortsOfOsFollowTheOriginal(c, "R17")
 
 	// ---------- R1 request -> os table ----------
 	top, specific := requestTypes(c, "R1")
@@ -1701,4 +1702,183 @@ func checkStatvfsFromNamesakes(c *Ctx, rule string) {
 		}
 	}
 	c.check(n >= 8, rule, "statvfs fields examined", p.Pos(fn.Pos()), fmt.Sprintf("%d fields", n), fmt.Sprintf("only %d fields of the StatVFS literal found", n))
+}
+
+// guardOf: the nearest branch that decides whether in's block is entered — the If at the end of a dominator of
+// which exactly one successor dominates the block — and the side taken.
+func guardOf(in ssa.Instruction) (*ssa.If, bool) {
+	b := in.Block()
+	for cur := b; cur != nil; cur = cur.Idom() {
+		id := cur.Idom()
+		if id == nil {
+			return nil, false
+		}
+		iff, ok := id.Instrs[len(id.Instrs)-1].(*ssa.If)
+		if !ok || len(id.Succs) != 2 || id.Succs[0] == id.Succs[1] {
+			continue
+		}
+		t, f := id.Succs[0], id.Succs[1]
+		td := (t == cur || t.Dominates(cur)) && len(t.Preds) == 1
+		fd := (f == cur || f.Dominates(cur)) && len(f.Preds) == 1
+		if td != fd {
+			return iff, td
+		}
+	}
+	return nil, false
+}
+
+// checkPortsOfOsFollowTheOriginal (C05.R17): three places where the client carries a port of a standard-library
+// routine and a boundary decides what it does —
+//   - MkdirAll creates the parent path[0:j-1] whenever that is not empty (os.MkdirAll: `if j > 1`): where the
+//     recursion is skipped the prover must find the parent's length <= 0;
+//   - Glob expands the directory part recursively exactly when it contains metacharacters and asks Lstat about the
+//     pattern itself exactly when that contains none (filepath.Glob);
+//   - cleanGlobPath turns the empty directory part into "." (filepath.cleanGlobPath).
+func checkPortsOfOsFollowTheOriginal(c *Ctx, rule string) {
+	p := c.P
+	// ---- MkdirAll ----
+	if fn := p.Func("(*Client).MkdirAll"); fn == nil {
+		c.missing(rule, "(*Client).MkdirAll")
+	} else {
+		w := newZWorld(p)
+		z := w.get(fn)
+		n := 0
+		eachInstr(fn, func(in ssa.Instruction) {
+			cc := callOf(in)
+			if cc == nil || cc.StaticCallee() != fn {
+				return
+			}
+			args := argsOf(cc)
+			if len(args) == 0 {
+				return
+			}
+			sl, ok := args[len(args)-1].(*ssa.Slice)
+			if !ok || sl.High == nil {
+				return
+			}
+			iff, truth := guardOf(in)
+			if iff == nil {
+				return
+			}
+			n++
+			h := z.term(sl.High)
+			if sl.Low != nil {
+				h = h.plus(z.term(sl.Low), -1)
+			}
+			skipped := z.condFacts(iff.Cond, !truth)
+			c.check(entails(skipped, leq(h, linConst(0), 0)), rule, "MkdirAll creates every non-empty parent", p.Pos(in.Pos()), "recursion skipped only when the parent path is empty",
+				"the test that guards the recursive call lets a non-empty parent path go uncreated (os.MkdirAll: `if j > 1`): for a relative path whose first element is one character long the Mkdir of the full path fails with no-such-file")
+		})
+		c.okT(rule, "MkdirAll recursions on a prefix examined", "?", fmt.Sprintf("%d", n))
+	}
+	// ---- Glob ----
+	if fn := p.Func("(*Client).Glob"); fn == nil {
+		c.missing(rule, "(*Client).Glob")
+	} else {
+		metaSide := func(at ssa.Instruction, arg ssa.Value) (found, meta bool) {
+			// the hasMeta(arg) test that decides whether `at` is reached
+			eachInstr(fn, func(in ssa.Instruction) {
+				call, ok := in.(*ssa.Call)
+				if !ok || calleeName(&call.Call) != "hasMeta" || len(call.Call.Args) != 1 || call.Call.Args[0] != arg {
+					return
+				}
+				for _, r := range *call.Referrers() {
+					var iff *ssa.If
+					neg := false
+					switch x := r.(type) {
+					case *ssa.If:
+						iff = x
+					case *ssa.UnOp:
+						if x.Op == token.NOT {
+							for _, r2 := range *x.Referrers() {
+								if i2, ok := r2.(*ssa.If); ok {
+									iff, neg = i2, true
+								}
+							}
+						}
+					}
+					if iff == nil || len(iff.Block().Succs) != 2 {
+						continue
+					}
+					yes, no := iff.Block().Succs[0], iff.Block().Succs[1]
+					if neg {
+						yes, no = no, yes
+					}
+					b := at.Block()
+					onYes := len(yes.Preds) == 1 && (yes == b || yes.Dominates(b))
+					onNo := len(no.Preds) == 1 && (no == b || no.Dominates(b))
+					if onYes != onNo {
+						found, meta = true, onYes
+					}
+				}
+			})
+			return
+		}
+		n := 0
+		eachInstr(fn, func(in ssa.Instruction) {
+			cc := callOf(in)
+			if cc == nil || cc.StaticCallee() == nil {
+				return
+			}
+			args := argsOf(cc)
+			if len(args) != 1 {
+				return
+			}
+			switch {
+			case cc.StaticCallee() == fn:
+				found, meta := metaSide(in, args[0])
+				if !found {
+					return
+				}
+				n++
+				c.check(meta, rule, "Glob expands the directory part recursively when it has metacharacters", p.Pos(in.Pos()), "Glob(dir) on the side where hasMeta(dir)",
+					"the recursive expansion is on the side where the directory part has no metacharacters: a pattern like */f* matches nothing (filepath.Glob: `if !hasMeta(dir) { return glob(dir, file, nil) }`)")
+			case fnName(cc.StaticCallee()) == "(*Client).Lstat":
+				found, meta := metaSide(in, args[0])
+				if !found {
+					return
+				}
+				n++
+				c.check(!meta, rule, "Glob asks Lstat about a pattern without metacharacters", p.Pos(in.Pos()), "Lstat(pattern) on the side where !hasMeta(pattern)",
+					"the literal-name shortcut is taken for patterns that do have metacharacters: they are looked up as names and nothing is expanded")
+			}
+		})
+		c.okT(rule, "Glob branches on hasMeta examined", "?", fmt.Sprintf("%d", n))
+	}
+	// ---- cleanGlobPath ----
+	if fn := p.Func("cleanGlobPath"); fn != nil && len(fn.Params) == 1 {
+		n := 0
+		eachInstr(fn, func(in ssa.Instruction) {
+			bo, ok := in.(*ssa.BinOp)
+			if !ok || bo.Op != token.EQL {
+				return
+			}
+			var k ssa.Value
+			switch {
+			case bo.X == ssa.Value(fn.Params[0]):
+				k = bo.Y
+			case bo.Y == ssa.Value(fn.Params[0]):
+				k = bo.X
+			}
+			if s, ok := constString(k); !ok || s != "" {
+				return
+			}
+			for _, r := range *bo.Referrers() {
+				iff, ok := r.(*ssa.If)
+				if !ok || len(iff.Block().Succs) != 2 {
+					continue
+				}
+				side := iff.Block().Succs[0]
+				ret, ok := side.Instrs[len(side.Instrs)-1].(*ssa.Return)
+				if !ok || len(ret.Results) != 1 || len(side.Preds) != 1 {
+					continue
+				}
+				n++
+				s, isK := constString(ret.Results[0])
+				c.check(isK && s == ".", rule, "cleanGlobPath: no directory part means \".\"", p.Pos(ret.Pos()), "\"\" → \".\"",
+					"the empty directory part of a pattern is not turned into \".\": a pattern without a slash is expanded in the directory \"\" — which a server without a working directory does not have — and matches nothing (filepath.cleanGlobPath returns \".\")")
+			}
+		})
+		c.okT(rule, "cleanGlobPath empty case examined", "?", fmt.Sprintf("%d", n))
+	}
 }
